@@ -34,6 +34,7 @@ Decided structurally:
   C08.basicraw  BASIC: the editor commands that free the stored program (NEW, DEL, LOAD / RUN "file") raise a BASIC error when a stored line
                 executes them, before anything is released; no statement dereferences an address computed from a program value (POKE, PEEK)
   C08.replacegrow  an in-place Phreeqc::replace into a raw char buffer that can lengthen the text is preceded by a growth of that buffer
+  C08.loadwarn  the warnings issued while a database is read survive the self-test run of LoadDatabase* (test_db saves and re-adds them)
 NOT decided: memory safety / absence of undefined behaviour for all byte sequences in general (no sound buffer or alias
 analysis of the 125 k-line engine is available here); std-library exceptions raised by input-dependent code are only
 censused (C08.stdthrow, informational).
@@ -243,6 +244,7 @@ def run(P, R, tier):
     gotoloop_rule(P, R, mt)
     scan_rule(P, R)
     basicraw_rule(P, R)
+    loadwarn_rule(P, R)
     replacegrow_rule(P, R)
     stdthrow_census(P, R, reach)
 
@@ -385,6 +387,32 @@ def replacegrow_rule(P, R):
                             "(heap corruption, the call still returns normally)" % (T.text(c)[:70], tgt), file=f["file"], line=c[1], function=f["q"])
     if n < 2:
         R.anchor_missing(RULE, "only %d lengthening in-place replacements into raw buffers found (get_option x2)" % n)
+
+
+def loadwarn_rule(P, R):
+    """"the error and warning strings describe that call only" - and all of it: a successful LoadDatabase* ends with a self-test run through
+    RunString, whose entry clears both reporters.  test_db therefore reads the text of the warning reporter before that run and puts it
+    back afterwards (Clear + AddError + update_errors); errors need no such care, a load with errors never reaches the self-test."""
+    RULE = "C08.loadwarn"
+    R.rule(RULE, "test_db carries the warnings of the load over its self-test run (saved before RunString, re-added after)", minimum=1)
+    fs = [g for g in P.fns_named("IPhreeqc::test_db") if g.get("body")]
+    if not fs:
+        R.anchor_missing(RULE, "IPhreeqc::test_db not found")
+        return
+    f = fs[0]
+    run = [c for c in T.calls(f["body"]) if T.callee_name(c) == "RunString"]
+    if not run:
+        R.anchor_missing(RULE, "test_db no longer runs its test input through RunString")
+        return
+    saved = [x for x in T.walk(f["body"]) if x[0] == "Decl" and x[1] < run[0][1] and any(y[0] == "Member" and y[2] == "IPhreeqc::WarningReporter" for d in x[2] if T.is_node(d[2]) for y in T.walk(d[2]))]
+    readd = [c for c in T.calls(f["body"]) if T.callee_name(c) == "AddError" and c[1] > run[0][1] and T.is_node(c[3]) and any(y[0] == "Member" and y[2] == "IPhreeqc::WarningReporter" for y in T.walk(c[3]))]
+    upd = [c for c in T.calls(f["body"]) if T.callee_name(c) == "update_errors" and c[1] > run[0][1]]
+    if saved and readd and upd:
+        R.ok(RULE, "test_db", "warning text saved at line %d, re-added at line %d, views refreshed" % (saved[0][1], readd[0][1]))
+    else:
+        R.violation(RULE, "test_db", "test_db runs its self-test through RunString (which clears the warning reporter) without %s: warnings issued while the database was read are "
+                    "lost, the warning string of a load call never describes the load" % ("saving the warnings of the load first" if not saved else "putting them back and refreshing the views"),
+                    file=f["file"], line=run[0][1], function=f["q"])
 
 
 def basicraw_rule(P, R):
